@@ -571,10 +571,10 @@ func (r *Raft) Stop() {
 		r.logger.Errorf("failed to close log: %v", err)
 	}
 
-	// Close or discard of any snapshot files.
-	r.resetSnapshotFiles()
-
+	// Close or discard of any snapshot files. A goroutine that was waiting for the response to an
+	// InstallSnapshot RPC when the node was shut down may still be looking at them.
 	r.mu.Lock()
+	r.resetSnapshotFiles()
 	r.stopped = true
 	r.mu.Unlock()
 
